@@ -281,6 +281,10 @@ class Interp(OpsMixin, BuiltinsMixin):
         if isinstance(o, MatchStub):
             return o.group(i)
         if isinstance(o, FmtStr):
+            if isinstance(i, slice) and i.start is None and i.step is None and isinstance(i.stop, int) and i.stop < 0:
+                last = o.parts[-1] if o.parts else ""
+                if isinstance(last, str) and len(last) >= -i.stop:
+                    return FmtStr(o.parts[:-1] + [last[:i.stop]])
             raise Undecided("subscript of formatted string")
         self.raise_("TypeError", "'%s' object is not subscriptable" % tname(o))
 
